@@ -694,6 +694,7 @@ def run(ck: Check) -> None:
     guard.campaign(ck, campaign_documents, 200 if quick else 2500)
     guard.campaign(ck, campaign_csv, 50 if quick else 500)
     guard.campaign(ck, c16_bridge.campaign_accepts, list(ACCEPT_LOG))
+    guard.campaign(ck, c16_bridge.campaign_v1_boundary, 2 if quick else 3, sys.modules[__name__])
     ck.search_hooks.append(search_keys)
     known_findings(ck)
 
